@@ -288,8 +288,11 @@ def run(ctx):
     fp = mdl.func('path.Path.intersect')
 
     def th4(it):
-        s1 = [it.construct('path.Line', Rat.csym('A%d' % k), Rat.csym('B%d' % k)) for k in range(2)]
-        s2 = [it.construct('path.Line', Rat.csym('C%d' % k), Rat.csym('D%d' % k)) for k in range(2)]
+        # concrete, pairwise overlapping segments: the tuple layout does not depend on the geometry (the segment solver is replaced by a
+        # stub), and any cheap bounding pre-filter Path.intersect may apply decides at once
+        cz = lambda x, y: Rat.const(x) + I * Rat.const(y)
+        s1 = [it.construct('path.Line', cz(0, 0), cz(10, 10)), it.construct('path.Line', cz(10, 10), cz(20, 0))]
+        s2 = [it.construct('path.Line', cz(0, 10), cz(10, 0)), it.construct('path.Line', cz(10, 0), cz(20, 10))]
         p1, p2 = it.construct('path.Path', *s1), it.construct('path.Path', *s2)
 
         def li(it2, a, k):
